@@ -27,6 +27,7 @@ func init() {
 		Assumptions: []string{"text/template semantics; the template model mirrors cmd/protoc-gen-router/main.go newServiceModel and cmd/protoc-gen-wrapper/main.go", "grpc ClientStream/ServerStream contracts"},
 		Run:         runC12,
 		Controls: []Control{
+			{Name: "wrapper-strips-only-the-first-underscore", File: "cmd/protoc-gen-wrapper/main.go", Old: "\tpkg = strings.ReplaceAll(pkg, \"_\", \"\")\n", New: "\tpkg = strings.Replace(pkg, \"_\", \"\", 1)\n", Expect: "R12.8"},
 			{Name: "only-client-streams-wrapped", File: "pkg/middleware/name/defaults.go", Old: "\t\treturn handler(srv, &absentNameReplaceServerStream{", New: "\t\tif !info.IsClientStream {\n\t\t\treturn handler(srv, ss)\n\t\t}\n\t\treturn handler(srv, &absentNameReplaceServerStream{", Expect: "R12.5"},
 			{Name: "generator-rehomes-output-type", File: "cmd/protoc-gen-router/main.go", Old: "\t\t\tGoOutput: ident(g, method.Output.GoIdent),", New: "\t\t\tGoOutput: ident(g, protogen.GoIdent{GoName: method.Output.GoIdent.GoName, GoImportPath: file.GoImportPath}),", Expect: "R12.7"},
 			{Name: "generator-skips-empty-services", File: "cmd/protoc-gen-router/main.go", Old: "\tfor _, service := range file.Services {\n", New: "\tfor _, service := range file.Services {\n\t\tif len(service.Methods) == 0 {\n\t\t\tcontinue\n\t\t}\n", Expect: "R12.6"},
@@ -282,6 +283,8 @@ func compareTokens(a, b []string) (bool, string) {
 }
 
 func runC12(c *an.Ctx) {
+	r128(c, "R12.8")
+	c.Min("R12.8", 1)
 	r121and2(c)
 	r123(c)
 	r124(c)
@@ -1448,4 +1451,73 @@ func r127(c *an.Ctx) {
 				fld+" is not derived from method."+want+".GoIdent: a request/response type that lives in another proto package is named as if it were local, so the checked-in routers of such services (speaker, microphone, memory settings) are no longer what the generator produces - regenerating them does not even compile")
 		}
 	}
+}
+
+// r128: the two generators place their output by the same computation. protoc-gen-router and protoc-gen-wrapper derive
+// the package directory and the file name of a service from the proto file name and the service name; the checked-in
+// `*_router.pb.go` and `*_wrap.pb.go` of one service live side by side, so the string operations that compute the
+// package (base name, underscore stripping, prefix/suffix trimming, lower-casing) are the same calls with the same
+// constant arguments in both. One generator stripping only the first underscore writes `airquality_sensorpb/…`
+// next to the other's `airqualitysensorpb/…`: the checked-in files are no longer what the generator produces.
+func r128(c *an.Ctx, rule string) {
+	sig := func(pkgRel string) ([]string, *ssa.Function) {
+		fn := c.Prog.Func(pkgRel, "", "generateFile")
+		if fn == nil {
+			return nil, nil
+		}
+		var out []string
+		for _, f := range append([]*ssa.Function{fn}, an.TransparentCalleesOf(fn, 1)...) {
+			an.Instrs(f, func(in ssa.Instruction) {
+				call, ok := in.(*ssa.Call)
+				if !ok {
+					return
+				}
+				n := an.CalleeName(call)
+				if !strings.HasPrefix(n, "strings.") && !strings.HasPrefix(n, "path/filepath.") && !strings.HasPrefix(n, "path.") {
+					return
+				}
+				var args []string
+				for _, a := range call.Call.Args {
+					if k, isC := a.(*ssa.Const); isC && k.Value != nil {
+						args = append(args, k.Value.ExactString())
+					} else {
+						args = append(args, "_")
+					}
+				}
+				out = append(out, n+"("+strings.Join(args, ", ")+")")
+			})
+		}
+		sort.Strings(out)
+		return out, fn
+	}
+	a, fa := sig("cmd/protoc-gen-router")
+	b, fb := sig("cmd/protoc-gen-wrapper")
+	if fa == nil || fb == nil {
+		c.Unk(rule, "cmd|generators place their output alike", 0, "generateFile of one of the generators not found")
+		return
+	}
+	same := strings.Join(a, ";") == strings.Join(b, ";")
+	diff := ""
+	if !same {
+		in := func(x string, l []string) bool {
+			for _, y := range l {
+				if x == y {
+					return true
+				}
+			}
+			return false
+		}
+		for _, x := range a {
+			if !in(x, b) {
+				diff += " router only: " + x + ";"
+			}
+		}
+		for _, x := range b {
+			if !in(x, a) {
+				diff += " wrapper only: " + x + ";"
+			}
+		}
+	}
+	c.Check(same && len(a) >= 4, rule, "cmd|generators place their output alike", fb.Pos(), fmt.Sprintf("%d string operations, identical in both generators", len(a)),
+		"protoc-gen-router and protoc-gen-wrapper compute package directory and file name with different string operations ("+strings.TrimSpace(diff)+"): for some proto files the two generators write into different directories, and the checked-in routers/wrappers are not what the generators produce")
 }
